@@ -237,7 +237,9 @@ pub fn worker_main() {
         let cmd = j["cmd"].as_str().unwrap().to_string();
         let seed = unhex(j["seed"].as_str().unwrap_or(""));
         let prior = unhex(j["prior"].as_str().unwrap_or(""));
-        let script: Vec<Beh> = reader_l1::parse_script(&j["script"]);
+        let mut script: Vec<Beh> = reader_l1::parse_script(&j["script"]);
+        // a leading pseudo entry {"how": "retries", "k": n} sets the client's retry budget for this job
+        let retries = if script.first().map(|b| b.how == "retries").unwrap_or(false) { script.remove(0).k as u32 } else { 0 };
         let seed_chunks: Vec<Vec<u8>> = j.get("seed_chunks").and_then(|v| v.as_array()).map(|a| a.iter().map(|x| unhex(x.as_str().unwrap())).collect()).unwrap_or_default();
         let http = j.get("http").and_then(|v| v.as_bool()).unwrap_or(false);
         let c2 = cmd.clone();
@@ -248,7 +250,7 @@ pub fn worker_main() {
                     let slog: reader_l1::SLog = Arc::new(Mutex::new(vec![]));
                     let server = tokio::spawn(reader_l1::serve(l2, Arc::new(arch), script, slog, 0));
                     let url = format!("http://127.0.0.1:{}/a.cba", port).parse().unwrap();
-                    let r = do_clone(HttpReader::from_url(url), &c2, seed, prior, seed_chunks).await;
+                    let r = do_clone(HttpReader::from_url(url).retries(retries).retry_delay(std::time::Duration::from_millis(0)), &c2, seed, prior, seed_chunks).await;
                     server.abort();
                     let _ = server.await;
                     r
@@ -653,9 +655,14 @@ pub fn main(args: &[String]) {
                 let k = c["k"].as_u64().unwrap_or(3);
                 let full = json!({"how": "full", "k": 0});
                 let bad = json!({"how": beh, "k": k});
-                let script = match target { "header1" => json!([bad]), "header2" => json!([full, bad]), _ => json!([full, full, bad]) };
+                let retries = c.get("retries").and_then(|v| v.as_u64()).unwrap_or(0);
+                let mut sv = match target { "header1" => vec![bad], "header2" => vec![full, bad], _ => vec![full.clone(), full, bad] };
+                if retries > 0 {
+                    sv.insert(0, json!({"how": "retries", "k": retries}));
+                }
+                let script = Value::Array(sv);
                 ncase += 1;
-                emit(json!({"ev": "case", "n": ncase, "kind": "server", "beh": beh, "target": target, "region": if beh == "extra" || beh.starts_with("cl") || beh == "chunked" { "none" } else if target == "chunks" { "chunk" } else { "dict" }, "chunk": 1, "needed": true,
+                emit(json!({"ev": "case", "n": ncase, "kind": "server", "beh": beh, "target": target, "retries": retries, "region": if beh == "extra" || beh.starts_with("cl") || beh == "chunked" { "none" } else if target == "chunks" { "chunk" } else { "dict" }, "chunk": 1, "needed": true,
                             "len": b.archive.len(), "alg": 2, "f": {}}), &mut w);
                 let e = l1(&mut pool, &b.archive, "clone", &[], &[], true, &script, &b.src_bytes, &[]);
                 nrun += 1;
